@@ -28,6 +28,8 @@ CONFIG = dict(
         "Rbgp.Gr.Restarting.Props.check_run_ok",
         "Rbgp.Gr.Restarting.Props.rel_after",
         "Rbgp.Gr.Restarting.Props.deferring_silent",
+        "Rbgp.Gr.Restarting.Props.unregister_silent",
+        "Rbgp.Gr.Restarting.Props.route_event_silent",
         "Rbgp.Gr.Restarting.Props.deferring_silent_step",
         "Rbgp.Gr.Restarting.Props.change_free_or_released",
         "Rbgp.Gr.Restarting.Props.family_complete_iff",
@@ -49,7 +51,11 @@ CONFIG = dict(
     nontrivial_re=r"\(complete |\(end ",
     rule="histories over <= 4 peer addresses (3 configurable helpers + 1 stranger) x 3 families x 4 prefixes: "
          "peer-established with any GR family subset (empty = no GR), End-of-RIB, peer-withdrawn, timer-expired, interleaved "
-         "with route insertions / withdrawals / per-peer family drops into the (deferred) tables; mostly-sane stream (EOR "
+         "with route insertions / withdrawals / per-peer family drops into the (deferred) tables; in half of the random "
+         "histories also: the end of an established helper session by an I/O error (REAL finish_session -> "
+         "unregister_peer(drop, stale) -> restale), mark_stale, mark_llgr_stale, drop_stale_families, "
+         "drop_llgr_stale_families and update_nexthop_validity on the real TableManager, hitting deferred and released "
+         "families alike; mostly-sane stream (EOR "
          "only from established GR peers, timer only once started) + an unconstrained stream (EOR from strangers and stale "
          "timer expiries are in the oracle's domain and must change nothing); selection-deferral time absent / 0 / 360 / 7; "
          "plus, computed by BFS in the "
@@ -69,8 +75,10 @@ CONFIG = dict(
                   "when no loopback connection can be made from 127.0.0.(2+p), `wd` falls back to feeding PeerWithdrawn as the "
                   "tail of PeerSession::run does"],
     modelled_not_verified=["the sleep of the selection-deferral timer task: expiry is an explicit event calling the real handler",
-                           "one path per (peer, prefix), no import filtering, no next-hop invalidation (C02/C06 cover ranking "
-                           "and filtered paths)"],
+                           "one path per (peer, prefix), no import filtering (C02/C06 cover ranking and filtered paths); next-hop "
+                           "validity is per announcing peer (each peer announces with its own next hop)",
+                           "gdown: the PeerSession handed to the real finish_session is filled by the harness with what "
+                           "on_established / apply_outputs would have given it (one Source per family, negotiated_gr)"],
     assumptions=["RestartingDeferral is only touched under the global write lock, so its inputs are a sequence"],
 )
 
@@ -106,8 +114,20 @@ def gen_case(r, sane):
     evs = []
     up = {}
     started = False
+    # a share of the histories also runs the GR-helper / next-hop mutators against the (deferred) tables
+    helper = r.chance(1, 2)
+    kinds = [("est", 6), ("eor", 8), ("wd", 3), ("timer", 1), ("ins", 7), ("rm", 2), ("drop", 1)]
+    if helper:
+        kinds += [("gdown", 3), ("stale", 2), ("llgr", 1), ("purge", 1), ("lpurge", 1), ("nhv", 2)]
+    pend_wd = None
     for _ in range(n):
-        k = r.weighted([("est", 6), ("eor", 8), ("wd", 3), ("timer", 1), ("ins", 7), ("rm", 2), ("drop", 1)])
+        k = r.weighted(kinds)
+        if pend_wd is not None and r.chance(3, 4):
+            # a session that ended is normally followed by the machine being told (tail of `run`)
+            up.pop(pend_wd, None)
+            evs.append("(wd %d)" % pend_wd)
+            pend_wd = None
+            continue
         if k == "est":
             p = r.pick(list(cfgd.keys())) if (cfgd and r.chance(3, 4)) else r.below(NP)
             base = cfgd.get(p, [])
@@ -147,6 +167,15 @@ def gen_case(r, sane):
             evs.append("timer")
         elif k == "ins":
             evs.append("(ins %d %d %d)" % (r.below(NP), r.below(NF), r.below(NX)))
+        elif k == "gdown":
+            p = r.pick(list(up.keys())) if (up and r.chance(5, 6)) else r.below(NP)
+            evs.append("(gdown %d)" % p)
+            if p in up:
+                pend_wd = p
+        elif k in ("stale", "llgr", "purge", "lpurge"):
+            evs.append("(%s %d %d)" % (k, r.below(NP), r.below(NF)))
+        elif k == "nhv":
+            evs.append("(nhv %d %s)" % (r.below(NP), "f" if r.chance(3, 5) else "t"))
         elif k == "rm":
             evs.append("(rm %d %d %d)" % (r.below(NP), r.below(NF), r.below(NX)))
         else:
